@@ -92,6 +92,22 @@ def check(ctx, rep):
         over_live = [l for l in loops if l.d[1] == T]
         rep.ob("R-SWEEP", "shutdown: the cancel loop walks the snapshot, not the live set", bool(over_snap) and not over_live, "loop over %s" % [fmt(l.d[1]) for l in loops], where_of(sh), trace_of(p))
         per = [c for c in cancels if isinstance(q.recv(c), tuple) and q.recv(c)[0] == "elem" and q.recv(c)[1] == sval]
+        # the loop in which cancel() is called walks the snapshot itself: a list derived from it by filtering (for
+        # instance partitioned by a predicate that is evaluated more than once, like running()) can lose members
+        for c in cancels:
+            encl = None
+            for l in p.evs("loop"):
+                if l.seq > c.seq:
+                    break
+                if l.d[0] == "enter" and l.fn is c.fn:
+                    encl = l
+                elif l.d[0] == "exit" and encl is not None and l.node is encl.node:
+                    encl = None
+            if encl is None:
+                continue
+            itb = q.deref(p, encl.d[1]) if isinstance(encl.d[1], tuple) else encl.d[1]
+            whole = itb == sval or itb == ("listof", sval, ()) or (isinstance(itb, tuple) and itb[0] == "call" and itb[1] in (("name", "list"), ("name", "tuple"), ("name", "sorted"), ("name", "reversed")) and itb[2][:1] == (sval,))
+            rep.ob("R-SWEEP", "shutdown: the cancel loop walks the whole snapshot", whole, "cancel() is called in a loop over %s, which is derived from the snapshot by selection: a future for which the selecting predicate changes between two evaluations (running() becomes true in between) is in none of the parts and gets no cancel()" % fmt(itb)[:160], where_of(sh, encl.node), trace_of(p, c.seq))
         iterated = [l for l in p.evs("loop") if over_snap and l.node is over_snap[0].node and l.d[0] == "back"]
         skipped_done = any(v is True and isinstance(t, tuple) and t[0] == "call" and isinstance(t[1], tuple) and t[1][0] == "attr" and t[1][2] in ("done", "cancelled") and isinstance(t[1][1], tuple) and t[1][1][0] == "elem" for t, v, e in q.atoms(p))
         if iterated and not per and not skipped_done:
